@@ -48,6 +48,8 @@ type obs struct {
 	WithParams                                                  bool
 	Threw                                                       bool
 	Reparse                                                     string // new URL(href).href, or "THROWS"
+	Held                                                        [][2]string // what the searchParams object obtained EARLIER lists (HasHeld)
+	HasHeld                                                     bool
 }
 
 func coqPairs(ps [][2]string) string {
@@ -113,8 +115,10 @@ func main() {
 	new(require.Registry).Enable(vm)
 	url.Enable(vm)
 	_, err := vm.RunString(`
-function __obs(u, withParams) {
+function __obs(u, withParams, sp) {
   var o = {Threw: false, WithParams: !!withParams};
+  // the object handed out earlier is read BEFORE url.searchParams is touched again: it must list the current pairs by itself
+  o.HasHeld = !!(withParams && sp); o.Held = o.HasHeld ? Array.from(sp.entries()) : [];
   o.Href = u.href; o.ToString = u.toString(); o.ToJSON = u.toJSON(); o.Search = u.search; o.Host = u.host; o.Hostname = u.hostname; o.Port = u.port; o.Protocol = u.protocol;
   o.Params = withParams ? Array.from(u.searchParams.entries()) : [];
   try { o.Reparse = new URL(o.Href).href } catch (e) { o.Reparse = "THROWS" }
@@ -130,7 +134,7 @@ function __step(u, sp, kind, a, b, withParams) {
     case "hash": u.hash = a; break; case "pathname": u.pathname = a; break;
     }
   } catch (e) { threw = true }
-  var o = JSON.parse(__obs(u, withParams)); o.Threw = threw; return JSON.stringify(o);
+  var o = JSON.parse(__obs(u, withParams, sp)); o.Threw = threw; return JSON.stringify(o);
 }`)
 	if err != nil {
 		panic(err)
@@ -170,6 +174,18 @@ function __step(u, sp, kind, a, b, withParams) {
 			default:
 				ops = append(ops, op{"pathname", r.Pick(paths), ""})
 			}
+		}
+		if r.Chance(15) { // every pair deleted through the object, then a query assigned, then the same object used again
+			extra := []op{{"deleteall", "", ""}}
+			if r.Bool() {
+				extra = append(extra, op{"search", r.Pick(searches), ""})
+			} else {
+				extra = append(extra, op{"href", r.Pick(hrefs), ""})
+			}
+			extra = append(extra, op{r.Pick([]string{"append", "set"}), r.Pick(spNames), r.Pick(spValues)})
+			at := r.Intn(len(ops) + 1)
+			ops = append(ops[:at:at], append(extra, ops[at:]...)...)
+			early = early || r.Chance(70)
 		}
 		lib.Breadcrumb(outPath, fmt.Sprintf("%s %v", base, ops))
 		script := fmt.Sprintf("var __u = new URL(%s); var __sp = %s; __obs(__u, false)", js(base), map[bool]string{true: "__u.searchParams", false: "null"}[early]) + ""
@@ -212,7 +228,28 @@ function __step(u, sp, kind, a, b, withParams) {
 		_ = curScheme
 		cur := o0
 		allObs := []obs{o0}
-		for pi, p := range ops {
+		for pi := 0; pi < len(ops); pi++ {
+			p := ops[pi]
+			if p.Kind == "deleteall" { // expanded, now that the names are known, into one delete per name the object lists
+				if !early {
+					vm.RunString("__sp = __u.searchParams")
+					early = true
+					ops[pi] = op{"materialise", "", ""}
+					ops = append(ops[:pi+1:pi+1], append([]op{{"deleteall", "", ""}}, ops[pi+1:]...)...)
+					pi--
+					continue
+				}
+				kv, _ := vm.RunString(`JSON.stringify(Array.from(new Set(Array.from(__sp.keys()))))`)
+				var names []string
+				json.Unmarshal([]byte(kv.String()), &names)
+				var dels []op
+				for _, nm := range names {
+					dels = append(dels, op{"delete", nm, ""})
+				}
+				ops = append(ops[:pi:pi], append(dels, ops[pi+1:]...)...)
+				pi--
+				continue
+			}
 			a := p.A
 			withParams := pi == len(ops)-1 || r.Chance(40)
 			if !early && (p.Kind == "append" || p.Kind == "delete" || p.Kind == "set" || p.Kind == "sort") {
@@ -270,6 +307,10 @@ function __step(u, sp, kind, a, b, withParams) {
 			}
 			var o obs
 			json.Unmarshal([]byte(v.String()), &o)
+			if o.HasHeld && fmt.Sprint(o.Held) != fmt.Sprint(o.Params) {
+				out.Fail(len(out.Cases), "held-searchParams-object-out-of-date", map[string]interface{}{"base": base, "ops": ops[:pi+1],
+					"held_object_lists": o.Held, "url.searchParams_lists": o.Params, "search": o.Search})
+			}
 			cur = o
 			allObs = append(allObs, o)
 		}
